@@ -75,6 +75,14 @@ func (self ValueAnyObject) Fields() (map[string]*Value, *Interrupt) {
 			value := self.FieldsInternal[args[0].(ValueString).Inner]
 			return NewValueOption(value), nil
 		}),
+		"get_type": NewValueBuiltinFunction(func(executor Executor, cancelCtx *context.Context, span errors.Span, args ...Value) (*Value, *Interrupt) {
+			key := args[0].(ValueString).Inner
+			value, found := self.FieldsInternal[key]
+			if !found {
+				return nil, NewRuntimeErr(fmt.Sprintf("Value of type 'any-object' has no field named '%s'", key), IndexOutOfBoundsErrorKind, span)
+			}
+			return NewValueString((*value).Kind().String()), nil
+		}),
 		"keys": NewValueBuiltinFunction(func(executor Executor, cancelCtx *context.Context, span errors.Span, args ...Value) (*Value, *Interrupt) {
 			rawKeys := make([]string, 0)
 			for key := range self.FieldsInternal {
